@@ -1,26 +1,32 @@
-"""pysx core: path state, forking by decision-prefix re-execution, z3 plumbing.
+"""pysx core: path state, exploration by re-execution, z3 plumbing.
 
-One `Explorer` explores every feasible path of a harness function.  A path is
-identified by its list of boolean decisions; a queued path is re-executed from
-the start following its decision prefix (no solver calls inside the prefix) and
-continues with fresh decisions.  Every fresh decision costs one solver query:
-the side satisfied by the path's current model is feasible for free, the other
-side is checked with z3 and queued (with its model) when satisfiable.
+A path is identified by a *set of literals*: every distinct branch condition gets a
+Boolean proxy (b <=> cond, asserted once, permanently) and the path condition is the
+list of proxy literals decided so far.  The solver is only ever queried under
+assumptions (no push/pop).  A queued path is re-executed from the start with its
+literal set pre-loaded: a branch whose condition is already among the literals costs
+nothing; a condition that is new (also one that is merely structurally different from
+the one met originally) is decided by the solver under the full intended path condition,
+so re-execution never relies on positional alignment of decisions.  Unsat cores of
+"other side infeasible" queries are kept as learned implications (core => decision)
+and reused on later paths.
 """
 import os
-import pickle
 import sys
 import time
 import z3
 
+CHAR_BITS = 21
+BYTE_BITS = 8
+INT_BITS = 32
+
 
 # ---------------------------------------------------------------------------
-# job tokens shared by every process of a check (GNU-make style jobserver)
+# job tokens (a plain semaphore over a pipe, shared by the processes of one check)
 _JOBS = None
 
 
 def jobserver_init(n_tokens):
-    """create the token pipe (call once, before worker processes are forked)"""
     global _JOBS
     r, w = os.pipe()
     os.set_blocking(r, False)
@@ -51,11 +57,8 @@ def jobserver_release():
     if _JOBS is not None:
         os.write(_JOBS[1], b"x")
 
-CHAR_BITS = 21
-BYTE_BITS = 8
-INT_BITS = 32
 
-
+# ---------------------------------------------------------------------------
 class EngineSignal(BaseException):
     """Engine control flow; never caught by interpreted `except Exception`."""
 
@@ -82,7 +85,7 @@ class SolverUnknown(EngineSignal):
 
 
 class Truncated(EngineSignal):
-    """time budget exhausted / stop requested: the rest of this path is not explored"""
+    """time budget exhausted: the rest of this path is not explored"""
 
 
 class Deferred(EngineSignal):
@@ -99,27 +102,16 @@ class Stats(object):
         self.queries = 0
         self.solver_s = 0.0
         self.unknown = 0
-        self.checks = 0          # assertion obligations discharged (unsat)
-        self.validated = 0       # paths whose model was replayed natively and agreed
-        self.spurious = 0
-        self.max_prefix = 0
         self.learned_hits = 0
-        self.child_crashes = 0
-
-    def merge(self, o):
-        for k in ("paths", "paths_cut", "decisions", "queries", "solver_s", "unknown",
-                  "checks", "validated", "spurious", "learned_hits", "child_crashes"):
-            setattr(self, k, getattr(self, k) + getattr(o, k))
-        self.max_prefix = max(self.max_prefix, o.max_prefix)
-        for d, od in ((self.cut_reasons, o.cut_reasons), (self.unsupported, o.unsupported)):
-            for k, v in od.items():
-                d[k] = d.get(k, 0) + v
+        self.lit_hits = 0
+        self.max_prefix = 0
 
     def as_dict(self):
         return dict(self.__dict__)
 
 
 _CHARVARS = {}
+DEBUG_FEAS = bool(os.environ.get("PYSX_DEBUG_FEAS"))
 CUR = None  # PathState of the path being executed (one explorer per process)
 
 
@@ -131,33 +123,17 @@ def _assert(solver, e):
     z3.Z3_solver_assert(solver.ctx.ref(), solver.solver, e.as_ast())
 
 
-def is_sym_bool(v):
-    return isinstance(v, z3.BoolRef)
-
-
-def z3_true(v):
-    return z3.is_true(v)
-
-
 class Proxy(object):
     __slots__ = ("cond", "b", "nb", "b_ast", "nb_ast", "k", "gen")
 
 
 class PathState(object):
-    """State of the path being executed.  Created by Explorer for each path.
+    """State of the path being executed.  Created by Explorer for each path."""
 
-    The path condition is a list of literals: every distinct branch condition gets a
-    Boolean proxy (b <=> cond, asserted once, permanently) and the solver is always
-    queried under assumptions, never with push/pop.  Unsat cores of "other side
-    infeasible" queries are kept as learned implications (core => decision) and reused
-    on later paths, so most implied conditions cost no query at all."""
-
-    def __init__(self, explorer, prefix, model, raw_ok=0):
-        self.ex = explorer
-        self.prefix = prefix
-        self.pos = 0
-        self.decisions = []
-        self.model = model          # z3 model satisfying the prefix (None for root)
+    def __init__(self, explorer, keys, model, raw_ok=0):
+        ex = explorer
+        self.ex = ex
+        self.model = model          # z3 model satisfying the pre-loaded literals (None for roots)
         self.model_valid = model is not None
         self.created = {}           # id -> obj for objects created on this path
         self.inputs = {}            # name -> z3 var (harness inputs, for concretisation)
@@ -166,8 +142,14 @@ class PathState(object):
         self.raw_ok = raw_ok
         self.decided = {}
         self.memo = {}
-        self.lits = []              # assumption literals (z3 ast handles) of the path condition
-        self.litset = set()         # signed proxy keys: k+1 for b_k, -(k+1) for not b_k
+        self.keys = list(keys)      # signed proxy keys: k+1 for b_k, -(k+1) for not b_k
+        self.litset = set(self.keys)
+        self.lits = []              # the same literals as z3 ast handles (assumptions)
+        for k in self.keys:
+            px = ex.by_key[abs(k) - 1]
+            ex.register(px)
+            self.lits.append(px.b_ast if k > 0 else px.nb_ast)
+        self.n_preloaded = len(self.keys)
 
     @property
     def solver(self):
@@ -218,8 +200,8 @@ class PathState(object):
 
     # -- constraints ----------------------------------------------------
     def assume_raw(self, cond):
-        """A constraint that defines the input domain: it only mentions input variables
-        and is the same on every path, so it is asserted once, permanently."""
+        """A globally valid constraint (input domain, definition of a fresh variable):
+        asserted once, permanently, needs no decision."""
         ex = self.ex
         cid = cond.get_id()
         if cid not in ex.raw_done:
@@ -227,7 +209,7 @@ class PathState(object):
             _assert(self.solver, cond)
         self.n_raw += 1
         if self.n_raw <= self.raw_ok:
-            return      # already satisfied by the model stored with this prefix
+            return      # already satisfied by the model stored with this path
         if self.model_valid:
             if not z3.is_true(self.model.eval(cond, model_completion=True)):
                 self.model_valid = False
@@ -248,7 +230,9 @@ class PathState(object):
                 self.model = self.solver.model()
                 self.model_valid = True
             elif r == z3.unsat:
-                raise PathCut("infeasible")
+                # must not happen: every literal is added on a side known to be feasible
+                self.ex.note_inconclusive("engine anomaly: path condition became unsatisfiable")
+                raise PathCut("engine-anomaly-infeasible")
             else:
                 raise SolverUnknown()
 
@@ -260,7 +244,8 @@ class PathState(object):
         n = len(al)
         arr = (z3.Ast * n)(*al)
         r = z3.Z3_solver_check_assumptions(ex.ctx_ref, self.solver.solver, n, arr)
-        ex.stats.solver_s += time.time() - t
+        dt = time.time() - t
+        ex.stats.solver_s += dt
         ex.stats.queries += 1
         if r == 1:
             return z3.sat
@@ -270,8 +255,13 @@ class PathState(object):
         return z3.unknown
 
     def _add_lit(self, px, d):
+        k = px.k + 1 if d else -(px.k + 1)
         self.lits.append(px.b_ast if d else px.nb_ast)
-        self.litset.add(px.k + 1 if d else -(px.k + 1))
+        self.litset.add(k)
+        self.keys.append(k)
+        if DEBUG_FEAS and self._check() == z3.unsat:
+            sys.stderr.write("INFEASIBLE after literal %d: %s\n" % (k, " ".join(px.cond.sexpr().split())[:300]))
+            raise PathCut("debug-infeasible")
 
     def branch(self, cond):
         """Decide a symbolic condition on this path; queue the other side."""
@@ -290,35 +280,32 @@ class PathState(object):
         if not isinstance(cond, z3.BoolRef):
             raise TypeError("branch on %r" % (cond,))
         px = ex.proxy(cond)
-        if self.pos < len(self.prefix):
-            d = self.prefix[self.pos]
-            self._add_lit(px, d)
-            self.pos += 1
-            self.decisions.append(d)
-            return d
         st = ex.stats
+        ls = self.litset
+        k1 = px.k + 1
+        # already part of this path's condition (pre-loaded literal or repeated test)
+        if k1 in ls:
+            st.lit_hits += 1
+            return True
+        if -k1 in ls:
+            st.lit_hits += 1
+            return False
         dd = ex.defer_depth
-        if dd is not None and len(self.decisions) >= dd:
-            ex.deferred.append(list(self.decisions))
+        if dd is not None and len(self.keys) >= dd:
+            ex.deferred.append(ex.export_keys(self.keys))
             raise Deferred()
         st.decisions += 1
         if ex.deadline is not None and time.time() > ex.deadline:
             raise Truncated()
-        if ex.stop_flag:
-            raise Truncated()
-        # learned implications: core (subset of the path literals) => this side infeasible
-        ls = self.litset
+        # learned implications: core (subset of the path literals) => this literal infeasible
         for pol in (True, False):
-            cores = ex.learned.get(px.k + 1 if pol else -(px.k + 1))
+            cores = ex.learned.get(k1 if pol else -k1)
             if cores:
                 for core in cores:
                     if core <= ls:
-                        d = not pol
                         st.learned_hits += 1
-                        self._add_lit(px, d)
-                        self.decisions.append(d)
-                        self.pos += 1
-                        return d
+                        self._add_lit(px, not pol)
+                        return not pol
         self._ensure_model()
         mv = self.model.eval(cond, model_completion=True)
         if z3.is_true(mv):
@@ -331,25 +318,14 @@ class PathState(object):
         other_ast = px.nb_ast if d else px.b_ast
         r = self._check(other_ast)
         if r == z3.sat:
-            if ex.fork_mode:
-                m2 = self.solver.model()
-                if ex.fork_child():
-                    # child process: explores the other side from here on
-                    d = not d
-                    self.model = m2
-                    self.model_valid = True
-            else:
-                ex.push_work(self.decisions + [not d], self.solver.model(), self.n_raw)
+            ex.push_work(self.keys + [-k1 if d else k1], self.solver.model(), self.n_raw)
         elif r == z3.unsat:
             core = ex.core_keys(other_ast)
             if core is not None:
-                key = -(px.k + 1) if d else (px.k + 1)
-                ex.learned.setdefault(key, []).append(core)
+                ex.learned.setdefault(-k1 if d else k1, []).append(core)
         else:
             ex.note_inconclusive("unknown at branch")
         self._add_lit(px, d)
-        self.decisions.append(d)
-        self.pos += 1
         return d
 
     # -- end-of-path queries ---------------------------------------------
@@ -371,13 +347,16 @@ class PathState(object):
 
 
 class Explorer(object):
-    def __init__(self, fn, timeout_ms=60000, max_paths=None, max_seconds=None, logic=__import__("os").environ.get("PYSX_LOGIC", "QF_BV"),
-                 prefix_roots=None, defer_depth=None):
+    def __init__(self, fn, timeout_ms=60000, max_paths=None, max_seconds=None,
+                 logic=os.environ.get("PYSX_LOGIC", "QF_BV"), prefix_roots=None, defer_depth=None,
+                 yield_after=None):
         self.fn = fn
+        self.yield_after = yield_after
         self.defer_depth = defer_depth
         self.deferred = []
-        self.max_defs = int(__import__("os").environ.get("PYSX_MAX_DEFS", "200"))
+        self.max_defs = int(os.environ.get("PYSX_MAX_DEFS", "200"))
         self.proxies = {}          # cond ast id -> Proxy
+        self.by_key = []           # k -> Proxy
         self.by_ast = {}           # literal ast id -> signed key
         self.learned = {}          # signed key (infeasible literal) -> [frozenset(signed keys)]
         self.raw_done = {}
@@ -387,7 +366,9 @@ class Explorer(object):
         self.work = []
         self.max_paths = max_paths
         self.max_seconds = max_seconds
+        self.deadline = None
         self.inconclusive = []
+        self._n_inconclusive = 0
         self.truncated = False
         self.logic = logic
         self.timeout_ms = timeout_ms
@@ -395,82 +376,8 @@ class Explorer(object):
         self.solver.set("timeout", timeout_ms)
         self.ctx_ref = self.solver.ctx.ref()
         self.prefix_roots = prefix_roots
-        self.fork_mode = os.environ.get("PYSX_FORK", "0") == "1" and not prefix_roots and defer_depth is None
-        self.is_child = False
-        self.out_fd = None
-        self.children = []         # concurrent children still running: (pid, read fd)
-        self.holds_token = False
-        self.deadline = None
-        self.stop_flag = False
-        self.blob_hooks = []       # objects with reset_in_child() / dump() / merge(data)
+        self.blob_hooks = []
         self.n_forks = 0
-
-    # -- fork-based exploration -------------------------------------------
-    def fork_child(self):
-        """Fork at a two-sided branch.  Returns True in the child.  The child runs
-        concurrently when a job token is available, else the parent waits for it."""
-        rfd, wfd = os.pipe()
-        token = jobserver_try_acquire()
-        sys.stdout.flush()
-        sys.stderr.flush()
-        pid = os.fork()
-        if pid == 0:
-            os.close(rfd)
-            self.is_child = True
-            self.out_fd = wfd
-            self.children = []
-            self.holds_token = token
-            self.stats = Stats()
-            self.inconclusive = []
-            self._n_inconclusive = 0
-            self.truncated = False
-            for h in self.blob_hooks:
-                h.reset_in_child()
-            return True
-        os.close(wfd)
-        self.n_forks += 1
-        if token:
-            self.children.append((pid, rfd))
-            if len(self.children) > 200:
-                self._collect(*self.children.pop(0))
-        else:
-            self._collect(pid, rfd)
-        return False
-
-    def _collect(self, pid, rfd):
-        data = b""
-        with os.fdopen(rfd, "rb") as f:
-            data = f.read()
-        os.waitpid(pid, 0)
-        if not data:
-            self.note_inconclusive("a forked explorer died without reporting (pid %d)" % pid)
-            self.stats.child_crashes = getattr(self.stats, "child_crashes", 0) + 1
-            return
-        blob = pickle.loads(data)
-        self.stats.merge(blob["stats"])
-        for w in blob["inconclusive"]:
-            self.note_inconclusive(w)
-        self._n_inconclusive = self.n_inconclusive + blob["n_inconclusive"] - len(blob["inconclusive"])
-        self.truncated = self.truncated or blob["truncated"]
-        if blob["stop"]:
-            self.stop_flag = True
-        for h, d in zip(self.blob_hooks, blob["hooks"]):
-            h.merge(d)
-
-    def _finish_process(self):
-        while self.children:
-            self._collect(*self.children.pop())
-        if self.is_child:
-            try:
-                blob = {"stats": self.stats, "inconclusive": self.inconclusive, "n_inconclusive": self.n_inconclusive,
-                        "truncated": self.truncated, "stop": self.stop_flag, "hooks": [h.dump() for h in self.blob_hooks]}
-                data = pickle.dumps(blob)
-                with os.fdopen(self.out_fd, "wb") as f:
-                    f.write(data)
-            finally:
-                if self.holds_token:
-                    jobserver_release()
-                os._exit(0)
 
     def proxy(self, cond):
         cid = cond.get_id()
@@ -478,20 +385,25 @@ class Explorer(object):
         if px is None:
             px = Proxy()
             px.cond = cond
-            px.k = len(self.proxies)
+            px.k = len(self.by_key)
             px.b = z3.Bool("__b%d" % px.k)
             px.nb = z3.Not(px.b)
             px.b_ast = px.b.as_ast()
             px.nb_ast = px.nb.as_ast()
             px.gen = -1
             self.proxies[cid] = px
+            self.by_key.append(px)
             self.by_ast[px.b.get_id()] = px.k + 1
             self.by_ast[px.nb.get_id()] = -(px.k + 1)
         if px.gen != self.gen:
-            _assert(self.solver, px.b == cond)
+            self.register(px)
+        return px
+
+    def register(self, px):
+        if px.gen != self.gen:
+            _assert(self.solver, px.b == px.cond)
             px.gen = self.gen
             self.n_defs += 1
-        return px
 
     def core_keys(self, other_ast):
         """signed keys of the path literals in the last unsat core (without `other`)"""
@@ -505,10 +417,19 @@ class Explorer(object):
             if k is None:
                 return None
             out.append(k)
-        return frozenset(out) - frozenset([self.by_ast_handle(other_ast)])
+        return frozenset(out) - frozenset([self.by_ast.get(z3.Z3_get_ast_id(self.ctx_ref, other_ast))])
 
-    def by_ast_handle(self, ast_handle):
-        return self.by_ast.get(z3.Z3_get_ast_id(self.ctx_ref, ast_handle))
+    def export_keys(self, keys):
+        """portable form of a literal list (for another process): serialized conditions"""
+        return [(self.by_key[abs(k) - 1].cond.serialize(), k > 0) for k in keys]
+
+    def import_keys(self, items):
+        out = []
+        for s, pol in items:
+            cond = z3.deserialize(s)
+            px = self.proxy(cond)
+            out.append(px.k + 1 if pol else -(px.k + 1))
+        return out
 
     def reset_solver(self):
         self.solver = z3.SolverFor(self.logic) if self.logic else z3.Solver()
@@ -517,86 +438,47 @@ class Explorer(object):
         self.n_defs = 0
         self.raw_done = {}
 
-    def push_work(self, prefix, model, n_raw=0):
-        self.work.append((prefix, model, n_raw))
+    def push_work(self, keys, model, n_raw=0):
+        self.work.append((keys, model, n_raw))
 
     def note_inconclusive(self, why):
         if len(self.inconclusive) < 50:
             self.inconclusive.append(why)
         else:
             self.inconclusive[-1] = "... (more)"
-        self._n_inconclusive = getattr(self, "_n_inconclusive", 0) + 1
+        self._n_inconclusive += 1
 
     @property
     def n_inconclusive(self):
-        return getattr(self, "_n_inconclusive", 0)
+        return self._n_inconclusive
 
     def run(self):
-        if self.fork_mode:
-            return self.run_fork()
-        return self.run_replay()
-
-    def run_fork(self):
         global CUR
         t0 = time.time()
         if self.max_seconds is not None:
             self.deadline = t0 + self.max_seconds
-        st = PathState(self, [], None, 0)
-        CUR = st
-        stop_exc = None
-        try:
-            try:
-                self.stats.paths += 1
-                self.fn(st)
-            except PathCut as c:
-                self.stats.paths_cut += 1
-                self.stats.cut_reasons[c.reason] = self.stats.cut_reasons.get(c.reason, 0) + 1
-            except Unsupported as u:
-                k = str(u.what)[:200]
-                self.stats.unsupported[k] = self.stats.unsupported.get(k, 0) + 1
-                self.note_inconclusive("unsupported: " + k)
-            except SolverUnknown:
-                self.note_inconclusive("solver unknown")
-            except Truncated:
-                self.truncated = True
-                self.note_inconclusive("truncated by time budget / stop")
-            except EngineSignal as e:
-                # harness-level stop (e.g. enough violations): remember, stop the siblings
-                self.stop_flag = True
-                stop_exc = e
-            except BaseException:
-                if self.is_child:
-                    import traceback
-                    self.note_inconclusive("exception in forked explorer: " + traceback.format_exc()[-600:])
-                    self.stats.child_crashes = getattr(self.stats, "child_crashes", 0) + 1
-                else:
-                    raise
-        finally:
-            self._finish_process()      # children never return from here
-        self.wall = time.time() - t0
-        if stop_exc is not None:
-            raise stop_exc
-        return self
-
-    def run_replay(self):
-        t0 = time.time()
         if self.prefix_roots:
-            self.work = [(list(p), None, 0) for p in self.prefix_roots]
+            self.work = [(self.import_keys(p), None, 0) for p in self.prefix_roots]
         else:
             self.work = [([], None, 0)]
         while self.work:
             if self.max_paths is not None and self.stats.paths >= self.max_paths:
                 self.truncated = True
                 break
-            if self.max_seconds is not None and time.time() - t0 > self.max_seconds:
+            if self.deadline is not None and time.time() > self.deadline:
                 self.truncated = True
                 break
-            prefix, model, raw_ok = self.work.pop()
-            self.stats.max_prefix = max(self.stats.max_prefix, len(prefix))
+            if self.yield_after is not None and time.time() - t0 > self.yield_after and len(self.work) >= 2:
+                # hand the queued sub-trees back to the scheduler (work sharing between processes)
+                for keys, _m, _r in self.work:
+                    self.deferred.append(self.export_keys(keys))
+                self.work = []
+                break
+            keys, model, raw_ok = self.work.pop()
+            self.stats.max_prefix = max(self.stats.max_prefix, len(keys))
             if self.n_defs > self.max_defs:
                 self.reset_solver()
-            st = PathState(self, prefix, model, raw_ok)
-            global CUR
+            st = PathState(self, keys, model, raw_ok)
             CUR = st
             try:
                 self.stats.paths += 1
@@ -612,8 +494,9 @@ class Explorer(object):
                 self.note_inconclusive("unsupported: " + k)
             except SolverUnknown:
                 self.note_inconclusive("solver unknown")
-            finally:
-                pass
+            except Truncated:
+                self.truncated = True
+                break
         if self.truncated:
             self.note_inconclusive("truncated: %d queued paths not explored" % len(self.work))
         self.wall = time.time() - t0
